@@ -144,4 +144,40 @@ mod verif_cex_header {
             }
         }
     }
+
+    // ---- C15: opening with a page size different from the file's is refused WITHOUT modifying the file, whatever the two
+    // sizes and however small the file is (also files shorter than four pages of the requested size)
+    #[test]
+    fn cex_open_with_another_page_size_is_refused() {
+        let dir = std::env::temp_dir();
+        let sizes = [1024u64, 2048, 4096, 5000, 16384];
+        for &a in &sizes {
+            for &np in &[4usize, 32] {
+                let p = dir.join(format!("jammdb-cex-pagesize-{}-{}-{}.db", a, np, std::process::id()));
+                let _ = std::fs::remove_file(&p);
+                {
+                    let db = OpenOptions::new().pagesize(a).num_pages(np).open(&p).unwrap();
+                    let tx = db.tx(true).unwrap();
+                    let b = tx.create_bucket("b").unwrap();
+                    b.put("k1", "v1").unwrap();
+                    b.create_bucket("nested").unwrap().put("x", "y").unwrap();
+                    tx.commit().unwrap();
+                }
+                let bytes = std::fs::read(&p).unwrap();
+                for &b in &sizes {
+                    if b == a { continue; }
+                    let what = format!("history: file created with page size {} and {} initial pages ({} bytes, one commit), then opened with page size {}", a, np, bytes.len(), b);
+                    let r = std::panic::catch_unwind(|| OpenOptions::new().pagesize(b).open(&p).map(|_| ()));
+                    if let Ok(Ok(())) = r { println!("CEX OpenOptions::open (C15 mismatching page size refused): {}: open succeeded", what); panic!("c15-open"); }
+                    let now = std::fs::read(&p).unwrap();
+                    if now != bytes { println!("CEX OpenOptions::open (C15 refusal leaves the file alone): {}: the file was modified ({} -> {} bytes, first difference at offset {:?})", what, bytes.len(), now.len(), bytes.iter().zip(now.iter()).position(|(x, y)| x != y)); panic!("c15-modified"); }
+                }
+                let db = OpenOptions::new().pagesize(a).open(&p).unwrap();
+                let tx = db.tx(false).unwrap();
+                assert_eq!(tx.get_bucket("b").unwrap().get_kv("k1").unwrap().value(), b"v1");
+                drop(tx); drop(db);
+                let _ = std::fs::remove_file(&p);
+            }
+        }
+    }
 }
